@@ -257,7 +257,27 @@ def toy_model_cases(rng, tier):
                     for k in (-3, -1, 0, 1, 2, n - 1, n, n + 1, 12345):
                         yield _case("shared %s %s %s %s" % (g, arg(k), arg(P[0]), arg(P[1])),
                                     ["shared", gd, k, P[0], P[1]])
+        if first_of_p or tier == "thorough":
+            # object level: every combination of operand presentations (canonical / constructor / rebuilt / twin objects)
+            for (P, S) in present_pairs(pts, p, a, rng) + ([(pts[0], pts[-1])] if first_of_p else []):
+                for kP in range(NPRES):
+                    yield _case("oneg %s %s %s" % (c, arg(kP), pa(P)), ["p_neg", list(cd), P, kP])
+                    for e in (0, 1, 2, 5, -1, n + 1):
+                        yield _case("omul %s %s %s %s" % (c, arg(kP), pa(P), arg(e)), ["p_mul", list(cd), P, kP, e, kP % 2])
+                        yield _case("ocmul %s %s %s %s" % (c, arg(kP), pa(P), arg(e)), ["p_cmul", list(cd), P, kP, e, 0])
+                    for kQ in range(NPRES):
+                        yield _case("oadd %s %s %s %s %s" % (c, arg(kP), pa(P), arg(kQ), pa(S)), ["p_add", list(cd), P, kP, S, kQ])
+                        yield _case("osub %s %s %s %s %s" % (c, arg(kP), pa(P), arg(kQ), pa(S)), ["p_sub", list(cd), P, kP, S, kQ])
+                        yield _case("ocadd %s %s %s %s %s" % (c, arg(kP), pa(P), arg(kQ), pa(S)), ["p_cadd", list(cd), P, kP, S, kQ])
         if first_of_p:
+            # operands from two curve objects with different parameters
+            others = [t for t in sel if (t[0], t[1], t[2]) != (p, a, b)]
+            for (p2, a2, b2, n2) in rng.sample(others, min(3, len(others))):
+                pts2 = curve_points(p2, a2, b2)
+                for P in [None] + pts[:4]:
+                    for S in [None] + pts2[:4]:
+                        yield _case("xadd %s %s %s %s" % (c, pa(P), cv(p2, a2, b2, n2), pa(S)),
+                                    ["x_add", list(cd), P, ["curve", p2, a2, b2, n2], S])
             # malformed constructor arguments
             spts = set(pts)
             off = next((x, y) for x in range(p) for y in range(p) if (x, y) not in spts)
@@ -313,12 +333,12 @@ def malformed_model_cases(rng, tier):
 
 # ------------------------------------------------------------------------------------------------
 # production curves: both configurations through subprocess workers
-def run_workers(ops, configs=("openssl", "none")):
+def run_workers(ops, configs=("openssl", "none"), split=True):
     """returns {config: [canonical result per op]}; one interpreter per (configuration, curve), all concurrent"""
     groups = {}
     for i, op in enumerate(ops):
         key = op[1] if len(op) > 1 and isinstance(op[1], str) else "-"
-        groups.setdefault(key if len(ops) > 40 else "-", []).append(i)
+        groups.setdefault(key if (len(ops) > 40 and split) else "-", []).append(i)
     procs = []
     for cfg in configs:
         for key, idx in groups.items():
@@ -392,6 +412,13 @@ def prod_model_ops(rng, tier):
             for e in [0, 1, 2, 3, n, n + 1, n + 2, -n, 2 * n + 5, -n + 3] + ([7, 65537] if tier == "thorough" else []):
                 res.append(("multiply %s %s %s" % (c, pa(P), arg(e)), ["multiply", name, P, e], False))
         res.append(("multiply %s %s %s" % (c, pa(G), arg(6)), ["multiply_self", name, 6], False))
+        for (P, S) in [(None, None), (G, None), (None, Q), (G, G2)]:
+            for kP in range(NPRES):
+                res.append(("omul %s %s %s %s" % (c, arg(kP), pa(P), arg(2)), ["p_mul", name, P, kP, 2, kP % 2], False))
+                res.append(("oneg %s %s %s" % (c, arg(kP), pa(P)), ["p_neg", name, P, kP], False))
+                for kQ in range(NPRES):
+                    res.append(("oadd %s %s %s %s %s" % (c, arg(kP), pa(P), arg(kQ), pa(S)), ["p_add", name, P, kP, S, kQ], False))
+                    res.append(("osub %s %s %s %s %s" % (c, arg(kP), pa(P), arg(kQ), pa(S)), ["p_sub", name, P, kP, S, kQ], False))
         res.append(("shared %s %s %s %s" % (g, arg(7), arg(Q[0]), arg(Q[1])), ["shared", name, 7, Q[0], Q[1]], False))
         res.append(("shared %s %s %s %s" % (g, arg(7), arg(Q[0]), arg(Q[1] + 1)), ["shared", name, 7, Q[0], Q[1] + 1], False))
         for x in [G[0], G[0] + p, 0, 5, p - 1, -1] + ([Q[0], 1, 2, 3] + [rng.getrandbits(255) for _ in range(4)] if tier == "thorough" else []):
@@ -638,6 +665,10 @@ def prod_check_ops(inp):
         return [["points_for_x", name, inp["x"]]]
     if kind == "shared":
         return [["shared", name, inp["k"], inp["P"][0], inp["P"][1]]]
+    if kind == "present":
+        return [op for op, _, _ in present_plan(name, inp.get("P"), inp.get("Q"), [tuple(t) for t in inp.get("scalars", [])], True)]
+    if kind == "history":
+        return history_ops(name, inp["seed"], inp["ks"], inp["xs"])
     raise KeyError(kind)
 
 
@@ -645,6 +676,11 @@ def prod_judge(inp, res):
     """res = {config: [results for prod_check_ops(inp)]}"""
     name, kind = inp["curve"], inp["kind"]
     p, a, b, n, G, bits = prod_params(name)
+    if kind == "present":
+        plan = present_plan(name, inp.get("P"), inp.get("Q"), [tuple(t) for t in inp.get("scalars", [])], True)
+        return judge_present(name, plan, res)
+    if kind == "history":
+        return judge_history(name, inp["ks"], inp["xs"], res, G)
     ro, rn = res["openssl"], res["none"]
     if ro != rn:
         ops = prod_check_ops(inp)
@@ -750,7 +786,194 @@ def prod_prop_inputs(rng, tier):
             inputs.append({"curve": name, "kind": "pfx", "x": x})
         for _ in range(3 if tier == "quick" else 30):
             inputs.append({"curve": name, "kind": "shared", "k": rng.getrandbits(256), "P": rnd[rng.randrange(len(rnd))]})
+        # presentations of the operands (which object stands for infinity / for a point / for a scalar)
+        for j, (P, S) in enumerate([(None, None), (Q, None), (None, G), (G, G), (Q, ref_neg(p, Q)), (G, Q)] +
+                                   ([] if tier == "quick" else [(R, None), (None, R), (R, Q)])):
+            inputs.append({"curve": name, "kind": "present", "P": P, "Q": S,
+                           "scalars": [list(t) for t in (SCALAR_PRES[:7] + [(-1, 1)] if j < 2 else [])]})
+        for j in range(1 if tier == "quick" else 6):
+            inputs.append({"curve": name, "kind": "history", "seed": rng.getrandbits(32),
+                           "ks": [5, -1, rng.getrandbits(256), n + 2], "xs": [G[0], 5]})
     return inputs
+
+
+# ---- presentation independence: which Python object stands for a point or a scalar ---------------------------------
+NPRES = len(c02_ops.PRESENTATIONS)
+SCALAR_PRES = [(0, 0), (0, 2), (1, 0), (1, 2), (1, 1), (2, 1), (5, 0), (-1, 0), (-3, 1)]
+
+
+def desc_params(desc):
+    """(p, a, n) of a curve descriptor"""
+    if isinstance(desc, str):
+        p, a, b, n, G, bits = prod_params(desc)
+        return p, a, n
+    if desc[0] == "curve":
+        return desc[1], desc[2], desc[4]
+    return desc[1], desc[2], desc[6]
+
+
+def present_plan(desc, P, Q, scalars, light=False):
+    """[(op, wanted element, group)] : the same operation under every combination of operand presentations.
+    `group` identifies the logical operation: all members of a group must return the same coordinates."""
+    p, a, n = desc_params(desc)
+    P = tuple(P) if P else None
+    Q = tuple(Q) if Q else None
+    red = (lambda k: k % n) if n else (lambda k: k)
+    plan = []
+    kinds = range(NPRES)
+    for kP in kinds:
+        for kQ in kinds:
+            plan.append((["p_add", desc, P, kP, Q, kQ], ref_add(p, a, P, Q), "add"))
+            plan.append((["p_sub", desc, P, kP, Q, kQ], ref_add(p, a, P, ref_neg(p, Q)), "sub"))
+            if not light or kP == kQ or kP == 0 or kQ == 0:
+                plan.append((["p_cadd", desc, P, kP, Q, kQ], ref_add(p, a, P, Q), "cadd"))
+        plan.append((["p_neg", desc, P, kP], ref_neg(p, P), "neg"))
+        for (e, ks) in scalars:
+            if not n and e < 0:
+                continue            # a curve object without order refuses negative scalars (AssertionError, see the theorems)
+            want = ref_mul(p, a, P, red(e))
+            plan.append((["p_mul", desc, P, kP, e, ks], want, "mul%d" % e))
+            plan.append((["p_rmul", desc, P, kP, e, ks], want, "mul%d" % e))
+            plan.append((["p_cmul", desc, P, kP, e, ks], want, "mul%d" % e))
+    return plan
+
+
+def judge_present(desc, plan, res):
+    """res = {config: [result per plan entry]}"""
+    p, a, n = desc_params(desc)
+    first = {}
+    for cfg, rs in res.items():
+        for (op, want, grp), got in zip(plan, rs):
+            if not same_elt(p, got, want):
+                return {"kind": "presentation-dependent", "config": cfg, "op": op[0],
+                        "presentations": [c02_ops.PRESENTATIONS[k] for k in ([op[3]] + ([op[5]] if op[0] in ("p_add", "p_sub", "p_cadd") else []))],
+                        "scalar_presentation": op[5] if op[0] in ("p_mul", "p_rmul", "p_cmul") else None,
+                        "got": got, "want": cpt(want)}
+            if first.setdefault(grp, got) != got:
+                return {"kind": "presentation-dependent-coordinates", "config": cfg, "op": op[0], "got": got, "other": first[grp]}
+    return None
+
+
+def chk_present(inp):
+    desc = inp["curve"] if isinstance(inp["curve"], str) else list(inp["curve"])
+    plan = present_plan(desc, inp.get("P"), inp.get("Q"), [tuple(t) for t in inp.get("scalars", [])], inp.get("light", False))
+    ops = [op for op, _, _ in plan]
+    if isinstance(desc, str):
+        res = run_workers(ops)
+    else:
+        res = {"inproc": [run_op(op) for op in ops]}
+    return judge_present(desc, plan, res)
+
+
+def chk_xcurve(inp):
+    """operands living on two curve objects with different parameters: the left operand's curve does the arithmetic;
+    the outcome is a point of the left curve equal to the reference sum, or an exception - never a point off that curve"""
+    A, B = list(inp["A"]), list(inp["B"])
+    P = tuple(inp["P"]) if inp["P"] else None
+    Q = tuple(inp["Q"]) if inp["Q"] else None
+    got = run_op(["x_add", A, P, B, Q])
+    p, a, b = A[1], A[2], A[3]
+    if got.startswith("!"):
+        return None if got in ("!E_NOPOINT", "!E_ASSERT") else {"kind": "mixed-curves-unexpected-exception", "got": got}
+    R = _pt(got)
+    if R is not None and P is not None and Q is not None and not ref_on(p, a, b, R):
+        return {"kind": "mixed-curves-off-curve-result", "got": got}
+    if Q is None and not same_elt(p, got, P):
+        return {"kind": "mixed-curves-identity", "got": got}
+    return None
+
+
+# ---- history independence: observers of a generator object before / after other calls ------------------------------
+def history_ops(desc, seed, ks, xs):
+    return [["history", desc, seed, ks, xs]]
+
+
+def judge_history(desc, ks, xs, res, G):
+    p, a, n = desc_params(desc)
+    ref_obs = None
+    for cfg, rs in res.items():
+        if rs[0].startswith("!"):
+            return {"kind": "history-raised", "config": cfg, "got": rs[0]}
+        b_obs, b_state, a_obs, a_state = json.loads(rs[0])
+        if b_obs != a_obs:
+            bad = [i for i in range(len(b_obs)) if b_obs[i] != a_obs[i]]
+            return {"kind": "history-dependent-result", "config": cfg, "index": bad[0], "before": b_obs[bad[0]], "after": a_obs[bad[0]]}
+        if b_state != a_state:
+            bad = [i for i in range(len(b_state)) if b_state[i] != a_state[i]]
+            return {"kind": "object-state-changed", "config": cfg, "field": bad[0], "before": b_state[bad[0]][:120], "after": a_state[bad[0]][:120]}
+        for i, k in enumerate(ks):
+            if not same_elt(p, b_obs[i], ref_mul(p, a, G, k % n)) or b_obs[i] != cpt(ref_mul(p, a, G, k % n)):
+                return {"kind": "generator-multiplication", "config": cfg, "k": k, "got": b_obs[i]}
+        if ref_obs is None:
+            ref_obs = b_obs
+        elif ref_obs != b_obs:
+            return {"kind": "backend-mismatch", "what": "history observations"}
+    return None
+
+
+def chk_history(inp):
+    desc = inp["curve"] if isinstance(inp["curve"], str) else list(inp["curve"])
+    ks, xs = inp["ks"], inp["xs"]
+    ops = history_ops(desc, inp["seed"], ks, xs)
+    if isinstance(desc, str):
+        res = run_workers(ops)
+        G = prod_params(desc)[4]
+    else:
+        res = {"inproc": [run_op(op) for op in ops]}
+        G = (desc[4], desc[5])
+        # a fresh object with another blinding factor observes the same values
+        fresh = list(desc)
+        fresh[7] = desc[7] + 12345
+        res["fresh-object"] = [run_op(["history", fresh, 0, ks, xs])]
+    return judge_history(desc, ks, xs, res, G)
+
+
+def chk_entropy(inp):
+    """entropy_f may return any bytes-like object"""
+    p, a, b, n = inp["curve"]
+    G = inp["G"]
+    want = run_op(["mk_gen", p, a, b, G[0], G[1], n, inp["entropy"]])
+    for kind in ("bytes", "bytearray", "memoryview"):
+        got = run_op(["mk_gen_bytes", p, a, b, G[0], G[1], n, inp["entropy"], kind])
+        if got.startswith("!") or not got.startswith(want[:-1]):
+            return {"kind": "entropy-presentation", "entropy_f_returns": kind, "got": got, "want_prefix": want}
+    return None
+
+
+def order_ops(rng):
+    """a short mixed batch over the three shipped curves: executed in one interpreter in this order and reversed"""
+    ops = []
+    for name in PROD:
+        p, a, b, n, G, bits = prod_params(name)
+        Q = ref_mul(p, a, G, 77)
+        ops += [["gmul", name, 5], ["multiply", name, Q, 3], ["add", name, G, Q], ["raw_mul", name, -2], ["neg", name, Q],
+                ["points_for_x", name, G[0]], ["p_add", name, Q, 0, None, 1], ["p_add", name, None, 5, Q, 3],
+                ["multiply", name, Q, n + 2], ["gmul", name, rng.getrandbits(64)]]
+    rng.shuffle(ops)
+    return ops
+
+
+def chk_order(inp):
+    """module-level state (native library handles, per-class OpenSSL groups, cached objects): the same calls give the
+    same answers in either order of execution"""
+    ops = inp["ops"]
+    fwd = run_workers(ops, split=False)
+    rev = run_workers(list(reversed(ops)), split=False)
+    for cfg in fwd:
+        r2 = list(reversed(rev[cfg]))
+        for i, op in enumerate(ops):
+            if fwd[cfg][i] != r2[i]:
+                return {"kind": "order-dependent", "config": cfg, "op": op[:2], "forward": fwd[cfg][i][:150], "reversed": r2[i][:150]}
+    if fwd["openssl"] != fwd["none"]:
+        bad = [i for i in range(len(ops)) if fwd["openssl"][i] != fwd["none"][i]]
+        return {"kind": "backend-mismatch", "op": ops[bad[0]][:2], "openssl": fwd["openssl"][bad[0]][:150], "none": fwd["none"][bad[0]][:150]}
+    return None
+
+
+def present_pairs(pts, p, a, rng):
+    P = pts[rng.randrange(len(pts))]
+    Q = pts[rng.randrange(len(pts))]
+    return [(None, None), (P, None), (None, P), (P, P), (P, ref_neg(p, P)), (P, Q)]
 
 
 def chk_prod(inp):
@@ -778,11 +1001,31 @@ def toy_prop_inputs(rng, tier):
             G = pts[rng.randrange(len(pts))]
             res.append(("toy_generator", {"curve": [p, a, b, n], "G": list(G), "entropy": ent, "pfx": j == 0,
                                           "ks": [rng.randrange(-2 * n, 2 * n + 1) for _ in range(6 if tier == "quick" else 60)]}))
+        # presentation / history / mixed-curve families
+        G = pts[rng.randrange(len(pts))]
+        descs = [["gen", p, a, b, G[0], G[1], n, 7], ["curve", p, a, b, n]] + ([["curve", p, a, b, None]] if first else [])
+        for desc in (descs if (first or tier == "thorough") else descs[:1]):
+            for j, (P, S) in enumerate(present_pairs(pts, p, a, rng)):
+                res.append(("present", {"curve": desc, "P": P, "Q": S, "light": not first,
+                                        "scalars": [list(t) for t in SCALAR_PRES + [(n + 1, 1), (2 * n, 0)]] if j < 3 else []}))
+        for j in range(2 if (first or tier == "thorough") else 1):
+            res.append(("history", {"curve": ["gen", p, a, b, G[0], G[1], n, rng.getrandbits(256)], "seed": rng.getrandbits(32),
+                                    "ks": [5, -1, rng.randrange(-2 * n, 2 * n), n + 2, rng.getrandbits(300)],
+                                    "xs": [G[0], rng.randrange(p), rng.randrange(p)]}))
+        if first:
+            res.append(("entropy", {"curve": [p, a, b, n], "G": list(G), "entropy": rng.getrandbits(256)}))
+            others = [c for c in sel if (c[0], c[1], c[2]) != (p, a, b)]
+            for (p2, a2, b2, n2) in rng.sample(others, min(3, len(others))):
+                pts2 = curve_points(p2, a2, b2)
+                for P in [None] + rng.sample(pts, min(3, len(pts))):
+                    for S in [None] + rng.sample(pts2, min(3, len(pts2))):
+                        res.append(("xcurve", {"A": ["curve", p, a, b, n], "B": ["curve", p2, a2, b2, n2], "P": P, "Q": S}))
     return res
 
 
 CHECKS = {"toy_group": chk_toy_group, "toy_scalar": chk_toy_scalar, "toy_generator": chk_toy_generator,
-          "wide_order": chk_wide_order, "prod": chk_prod}
+          "wide_order": chk_wide_order, "prod": chk_prod, "present": chk_present, "history": chk_history,
+          "entropy": chk_entropy, "xcurve": chk_xcurve, "order": chk_order}
 
 
 def prop_cases(rng, tier):
@@ -790,6 +1033,9 @@ def prop_cases(rng, tier):
         yield PropCase(name, inp, (lambda name=name, inp=inp: CHECKS[name](inp)))
     wide = {"entropy": 2 ** 200 + 5, "ks": [2 ** 300 + 17, 2 ** 383, -1, 2 ** 256, rng.getrandbits(384)]}
     yield PropCase("wide_order", wide, (lambda: chk_wide_order(wide)))
+    for j in range(1 if tier == "quick" else 4):
+        oinp = {"ops": order_ops(rng)}
+        yield PropCase("order", oinp, (lambda oinp=oinp: chk_order(oinp)))
     # production curves: one batch per configuration
     inputs = prod_prop_inputs(rng, tier)
     ops, spans = [], []
@@ -864,6 +1110,24 @@ def search(rng, tier, disagreements, known_ids):
                     if p % 4 == 3:
                         for ent in ENTROPIES[:3]:
                             cands.append(("toy_generator", {"curve": [p, a, b, n], "G": list(pts[0]), "entropy": ent, "pfx": True}))
+        except Exception:
+            pass
+    for d in disagreements[:40]:
+        toks = d["case"].split(" ")
+        fn = toks[0]
+        try:
+            if fn in ("oadd", "osub", "ocadd", "oneg", "omul", "ocmul", "xadd"):
+                p, a, b, n = [iv(t) for t in toks[1:5]]
+                prod = [nm for nm in PROD if prod_params(nm)[0] == p]
+                desc = prod[0] if prod else ["curve", p, a, b, n or None]
+                if fn == "xadd":
+                    cands.append(("xcurve", {"A": desc, "P": ptv(toks[5]), "B": ["curve"] + [iv(t) for t in toks[6:10]], "Q": ptv(toks[10])}))
+                    continue
+                P = ptv(toks[6])
+                Q = ptv(toks[8]) if fn in ("oadd", "osub", "ocadd") else None
+                sc = [[iv(toks[7]), 0], [iv(toks[7]), 1]] if fn in ("omul", "ocmul") else [[0, 2], [1, 2], [2, 1]]
+                cands.append(("present", {"curve": desc, "P": P, "Q": Q, "scalars": sc}))
+                cands.append(("present", {"curve": desc, "P": None, "Q": P or Q, "scalars": []}))
         except Exception:
             pass
     for name, inp in cands:
